@@ -451,6 +451,32 @@ pub fn register(l: &mut Vec<Obl>) {
             r.goal("from_oklab", rgb.red.close(e[0], 1e-5) & rgb.green.close(e[1], 1e-5) & rgb.blue.close(e[2], 1e-5));
             r
         });
+    // which curve each RGB / luma STANDARD names (the per-curve obligations above check the curves themselves)
+    macro_rules! standard_curve {
+        ($key:literal, $S:ty, $enc:path, $dec:path, $cite:literal) => {{
+            obl!(l; concat!("c05_standard_names_its_curve_", $key), "C05", Tier::Quick,
+                concat!("the transfer function that ", stringify!($S), " names as an RGB standard and as a luma standard is the published curve of that standard (", $cite, "): encoding and decoding through <S as RgbStandard>::TransferFn and <S as LumaStandard>::TransferFn equal it within 1e-9 on [0,1]"),
+                [concat!("<", stringify!($S), " as RgbStandard>::TransferFn"), concat!("<", stringify!($S), " as LumaStandard>::TransferFn")],
+                [var("x", 0.0, 1.0)];
+                |v| {
+                    use palette::luma::LumaStandard;
+                    use palette::rgb::RgbStandard;
+                    let mut r = Res::<B>::new();
+                    r.goal("rgb_encode", <<$S as RgbStandard>::TransferFn as FromLinear<T, T>>::from_linear(v[0]).close($enc(v[0]), 1e-9));
+                    r.goal("rgb_decode", <<$S as RgbStandard>::TransferFn as IntoLinear<T, T>>::into_linear(v[0]).close($dec(v[0]), 1e-9));
+                    r.goal("luma_encode", <<$S as LumaStandard>::TransferFn as FromLinear<T, T>>::from_linear(v[0]).close($enc(v[0]), 1e-9));
+                    r.goal("luma_decode", <<$S as LumaStandard>::TransferFn as IntoLinear<T, T>>::into_linear(v[0]).close($dec(v[0]), 1e-9));
+                    r
+                });
+        }};
+    }
+    standard_curve!("srgb", encoding::Srgb, tf::srgb_encode, tf::srgb_decode, "IEC 61966-2-1");
+    standard_curve!("rec709", encoding::Rec709, tf::rec_encode, tf::rec_decode, "ITU-R BT.709");
+    standard_curve!("rec2020", encoding::Rec2020, tf::rec_encode, tf::rec_decode, "ITU-R BT.2020");
+    standard_curve!("adobe", encoding::AdobeRgb, tf::adobe_encode, tf::adobe_decode, "Adobe RGB (1998)");
+    standard_curve!("dci_p3", encoding::DciP3, tf::p3_encode, tf::p3_decode, "SMPTE RP 431-2");
+    standard_curve!("display_p3", encoding::DisplayP3, tf::srgb_encode, tf::srgb_decode, "Display P3: the sRGB curve");
+    standard_curve!("prophoto", encoding::ProPhotoRgb, tf::prophoto_encode, tf::prophoto_decode, "ROMM RGB");
     transfer_edge!(l, "srgb", encoding::Srgb, tf::srgb_encode, tf::srgb_decode, "IEC 61966-2-1");
     transfer_edge!(l, "rec_oetf", encoding::RecOetf, tf::rec_encode, tf::rec_decode, "ITU-R BT.709 / BT.2020");
     transfer_edge!(l, "adobe", encoding::AdobeRgb, tf::adobe_encode, tf::adobe_decode, "Adobe RGB (1998), gamma 563/256");
